@@ -201,7 +201,7 @@ func liveMode(runs, ticks int, maxRounds uint64, outDir string) {
 			continue
 		}
 		cw.Add(healLit(lastRun.powers, lastRun.byz, h, maxRounds), map[string]any{"prefix": meta, "start_rounds": h.StartRounds, "committed": h.Committed, "rounds_needed": h.RoundsNeeded,
-			"virtual_ms": h.VirtualMS, "locked_replicas": h.Locked, "distinct_locks": h.DistinctLocks, "byzantine_pacemaker_lies": h.Lies})
+			"virtual_ms": h.VirtualMS, "locked_replicas": h.Locked, "distinct_locks": h.DistinctLocks, "byzantine_pacemaker_lies": h.Lies, "leader_messages_re_signed_by_the_byzantine_validator": h.Echoes, "leader_messages_answered_with_a_partial_certificate": h.Partials})
 		st.Cases++
 		if !h.Committed && os.Getenv("VERIF_DEBUG") != "" {
 			fmt.Printf("NEVER: %v byz=%d strategy=%v startRounds=%v\n", lastRun.powers, lastRun.byz, meta["strategy"], h.StartRounds)
